@@ -103,6 +103,13 @@ def _c16_viol(res):
             v.append(dict(stage="pipeline", id=r["id"], what=[list(b)[:3] for b in r["bad"]][:3], kind="pipeline:" + r["via"]))
     if not res["pipeline"]["mc_pipeline_ok"]:
         v.append(dict(stage="pipeline", id="MC_Pipeline", what=[["pipeline_model_not_total"]], kind="mc"))
+    # the compiler runs of the other stages are executions of the same pipeline: a panic,
+    # crash or hang there is the same violation
+    for e in res["tables"].get("errs", []):
+        if e["cls"] in ("panic", "crash", "hang"):
+            v.append(dict(stage="tables", id=e["id"], what=[["compiler_aborts", e["cls"], e["msg"][:120]]], kind="abort"))
+    for e in res["builder"].get("aborts", []):
+        v.append(dict(stage="builder", id=e["id"], what=[["compiler_aborts", e["cls"], e["msg"][:120]]], kind="abort"))
     return v
 
 
@@ -170,7 +177,7 @@ PROPS = {
     "C09": dict(stages=["builder"], viol=_c09_viol),
     "C17": dict(stages=["determinism", "settings"], viol=_c17_viol),
     "C18": dict(stages=["regen"], viol=_c18_viol),
-    "C16": dict(stages=["pipeline"], viol=_c16_viol),
+    "C16": dict(stages=["pipeline", "tables", "builder"], viol=_c16_viol),
     "C06": dict(stages=["lex"], viol=_c06_viol),
     "C05": dict(stages=["tables", "resolve", "prec"], viol=_c05_viol),
     "C01": dict(stages=["tables", "lr", "mci_lr"],
